@@ -506,6 +506,11 @@ func stlGenModel(r *fw.Rand, enumerate [][]byte) stlModel {
 		if n := len(m.Cues); n > 0 && r.P(1, 8) {
 			c.TCI, c.TCO = m.Cues[n-1].TCI, m.Cues[n-1].TCO // two cues over the same interval
 		}
+		if m.G.TCP[0] > 0 && enumerate == nil && r.P(1, 8) {
+			// a cue of the pre-roll (line-up, clock): its timecodes lie before the programme start, the instants it
+			// denotes relative to the programme are negative
+			c.TCI[0], c.TCO[0] = byte(r.Intn(m.G.TCP[0])), byte(r.Intn(m.G.TCP[0]))
+		}
 		nrows := r.Range(1, 3)
 		if enumerate != nil {
 			nrows = 8
@@ -813,7 +818,10 @@ func stlGenWriterModel(r *fw.Rand) (stlModel, *astisub.Subtitles, string) {
 			}
 			return stlTimeNs(stlGenTC(r, g.FPS, 0), g.FPS)
 		}
-		c := stlCue{start: fr(), end: fr(), VP: byte(r.Range(1, 23)), JC: byte(r.Intn(4))}
+		c := stlCue{start: fr(), end: fr(), VP: byte(r.Range(0, 23)), JC: byte(r.Intn(4))}
+		if c.VP == 0 && metaKind != 0 {
+			c.VP = 1 // row 0 is the top row of an open-subtitling display; teletext rows are counted from 1
+		}
 		it := &astisub.Item{StartAt: time.Duration(c.start), EndAt: time.Duration(c.end)}
 		if r.P(2, 3) {
 			j := []astisub.Justification{astisub.JustificationUnchanged, astisub.JustificationLeft, astisub.JustificationCentered, astisub.JustificationRight}[c.JC]
